@@ -492,3 +492,12 @@ M("c20-unknown-msg-tag-tolerated", "C20", ["R20.3", "R07.4"], MSG, "        rais
 M("c20-recv-outside-try", "C20", "R20.1", LP, "        try:\n            if mask & selectors.EVENT_READ:\n                recv_data = sock.recv(1024)\n", "        recv_data = sock.recv(1024) if mask & selectors.EVENT_READ else b''\n        try:\n            if mask & selectors.EVENT_READ:\n")
 M("c20-getdata-any-type", "C20", "R20.3", RP, "        if get_data_message.data_type != DATA_BLOCK:\n            raise NotImplementedError(\"We can only deal w/ DATA_BLOCK GetDataMessage objects for now\")\n", "")
 M("c20-disconnect-other-peer", "C20", "R20.1", LP, "            self.network_manager.handle_peer_disconnected(remote_peer)\n\n        except Exception:\n            # yes yes", "            for p in list(self.network_manager.connected_peers.values()):\n                self.network_manager.handle_peer_disconnected(p)\n\n        except Exception:\n            # yes yes")
+
+# ----------------------------------------------------------------------------------------------- extras
+M("c05-slice-wrap-off", "C05", "R05.7", POW, "        result += serialized_block[start:start + length - len(result)]", "        result += serialized_block[start:start + length]")
+M("c07-deserialize-skips-byte", "C07", "R07.5", SER, "        f = BytesIO(bytes_)\n        f.seek(0)\n        return cls.stream_deserialize(f)\n\n    def stream_serialize", "        f = BytesIO(bytes_)\n        f.seek(1)\n        return cls.stream_deserialize(f)\n\n    def stream_serialize")
+M("c09-broadcast-twice", "C09", "R09.8", MGR, "                peer.send_message(message)\n            except (ValueError, KeyError) as e:", "                peer.send_message(message)\n                peer.send_message(message)\n            except (ValueError, KeyError) as e:")
+M("c09-broadcast-first-peer-only", "C09", "R09.8", MGR, "        for peer in self.get_active_peers():\n            try:", "        for peer in self.get_active_peers()[:1]:\n            try:")
+M("c11-drop-first-byte", "C11", "P1", RP, "        self.receiver.receive(data)", "        self.receiver.receive(data[1:] if len(data) > 1023 else data)")
+M("c01-add-block-mutates-receiver", "C01", "R03.1", CS, "        validate_block_in_coinstate(block, self)\n\n        return", "        self.current_chain_hash = block.hash()\n        validate_block_in_coinstate(block, self)\n\n        return")
+M("c04-forks-skip-main", "C04", "R04.6", CS, "        return [(head, _find_lca_with_main(head)) for head in self.heads.values()]", "        return [(head, _find_lca_with_main(head)) for head in self.heads.values() if head.hash() != self.current_chain_hash]")
